@@ -449,10 +449,14 @@ prop("C12",
 
 # ----------------------------------------------------------------------------- C13 (back-end selection)
 def c13_units(tier):
-    n = scale(tier, 3000, 100000)
-    return [Unit("c13", ["c13.cpp", "tramp.S"], SHIPPED, cases=n, shards=10 if tier == "quick" else 16, args=["--vec128", "1", "--vec256", "1"]),
-            Unit("c13-novec256", ["c13.cpp", "tramp.S"], NOVEC256, cases=n, shards=3 if tier == "quick" else 16, args=["--vec128", "1", "--vec256", "0"]),
-            Unit("c13-nosimd", ["c13.cpp", "tramp.S"], NOSIMD, cases=n, shards=3 if tier == "quick" else 16, args=["--vec128", "0", "--vec256", "0"])]
+    n = scale(tier, 3000, 100000); q = tier == "quick"
+    u = []
+    for name, cfg, a in (("", SHIPPED, ["--vec128", "1", "--vec256", "1"]), ("-novec256", NOVEC256, ["--vec128", "1", "--vec256", "0"]),
+                         ("-nosimd", NOSIMD, ["--vec128", "0", "--vec256", "0"])):
+        main = name == ""
+        u.append(Unit("c13-real" + name, ["c13.cpp", "tramp.S"], cfg, cases=n, shards=(4 if main else 1) if q else 8, args=a + ["--cases", "real"]))
+        u.append(Unit("c13-model" + name, ["c13.cpp", "tramp.S"], cfg, cases=n, shards=(6 if main else 2) if q else 16, args=a + ["--cases", "model"]))
+    return u
 
 prop("C13",
      units=c13_units,
@@ -464,7 +468,9 @@ prop("C13",
            "bits, leaf-7 sub-leaf table with max sub-leaf 0..2, Intel vs AMD out-of-range-leaf behaviour, XCR0 values, and the "
            "garbage ECX delivered whenever plain __cpuid is used); oracle: selected back end (vtable identity / parallel vtable + "
            "size) == widest compiled-in back end the (real or modelled) CPU and OS support, advertised parallel size matches, "
-           "XGETBV never executed without OSXSAVE, identical on every call; for the shipped, VEC256-less and SIMD-less builds; "
+           "XGETBV never executed without OSXSAVE, identical on every call; for the shipped, VEC256-less and SIMD-less builds; each "
+           "modelled case runs in a forked child of a process that never calls the library (a probe result cached by the library "
+           "would be legitimate here - a real CPU does not change - and must not make cases influence each other); "
            "non-trivial = real-CPU case with non-zero ECX garbage, or a model that is not 'everything present'"),
      assumptions=BUILD_ASSUME[:0] + ["SSE OS support is architectural on x86-64 and is not modelled", "modelled CPUs decide selection logic only; instruction execution happens on the host"],
      technique="property-based testing (rapidcheck): generated register/stack garbage on the real CPU + generated CPU models through a CPUID hook",
